@@ -227,6 +227,9 @@ func (r *Reader) NextFrame() (hdr ws.Header, err error) {
 		}
 	} else {
 		r.opCode = hdr.OpCode
+		// A new message starts here: it must not inherit the UTF-8 decoder
+		// state left by a previous invalid message.
+		r.utf8 = UTF8Reader{}
 	}
 	if r.CheckUTF8 && (hdr.OpCode == ws.OpText || (r.fragmented() && r.opCode == ws.OpText)) {
 		r.utf8.Source = frame
